@@ -178,7 +178,7 @@ class Run:
                        len(kn), len(viol), len(self.functions), wall))
         out.append(summary)
         if not quiet:
-            print('\n'.join(out))
+            print('\n'.join(out).replace('\x00', '~'))
         return 1 if viol else 0
 
     def write_evidence(self, viol, kn, wall):
